@@ -547,7 +547,7 @@ impl Gen {
         }
         if self.rng.gen_bool(0.6) {
             o.high_lbd_limit = *[0usize, 1, 2, 4].choose(&mut self.rng).unwrap();
-            o.lbd_threshold = *[0u32, 1, 5].choose(&mut self.rng).unwrap();
+            o.lbd_threshold = *[0u32, 0, 0, 1, 5].choose(&mut self.rng).unwrap();
         }
         if self.rng.gen_bool(0.5) {
             o.sorting = "activity".into();
@@ -810,7 +810,7 @@ pub fn fam_cumulative(seed: u64, tier: &str, index: u64) -> Scenario {
     let br = g.random_brancher();
     g.steps.push(Step::Iterate { br, max: 100000, stop_at: None });
     let mut opts = g.random_opts();
-    if opts.restart_base <= 2 && opts.high_lbd_limit <= 4 {
+    if opts.restart_base <= 3 && opts.high_lbd_limit <= 4 {
         opts.high_lbd_limit = 4000;
     }
     Scenario { fam: "cumulative".into(), id: index, opts, steps: g.steps, engine: true }
@@ -868,10 +868,138 @@ pub fn fam_reif(seed: u64, tier: &str, index: u64) -> Scenario {
     };
     g.steps.push(Step::Iterate { br, max: 100000, stop_at: None });
     let mut opts = g.random_opts();
-    if opts.restart_base <= 2 && opts.high_lbd_limit <= 4 {
+    if opts.restart_base <= 3 && opts.high_lbd_limit <= 4 {
         opts.high_lbd_limit = 4000;
     }
     Scenario { fam: "reif".into(), id: index, opts, steps: g.steps, engine: true }
+}
+
+/// A model with enough conflicts to exercise learning, restarts and nogood deletion: 4-6
+/// variables of width 3-4 and a dense set of disequalities / small linear constraints / clauses.
+pub fn build_dense_model(g: &mut Gen, tier: &str) {
+    let nv = g.rng.gen_range(4..=if tier == "thorough" { 6 } else { 5 });
+    let w = g.rng.gen_range(3..=4);
+    let lo = g.rng.gen_range(-2..=2);
+    for _ in 0..nv {
+        let shift = g.rng.gen_range(0..=1);
+        let vals: Vec<i32> = (lo + shift..lo + shift + w).collect();
+        let _ = g.add_int_var_with(vals, false);
+    }
+    let nl = g.rng.gen_range(0..=2);
+    for _ in 0..nl {
+        let _ = g.add_lit();
+    }
+    // a colouring-like core: disequalities between (offset) variables on a random graph, which is
+    // what makes the search run into conflicts that root propagation cannot resolve
+    let ivs = g.int_vars();
+    let density = g.rng.gen_range(50..=90);
+    for i in 0..ivs.len() {
+        for j in i + 1..ivs.len() {
+            if g.rng.gen_range(0..100) < density {
+                let o = if g.rng.gen_bool(0.25) { g.rng.gen_range(-1..=1) } else { 0 };
+                let a = View { v: ivs[i], s: 1, o };
+                let b = View::var(ivs[j]);
+                let c = match g.rng.gen_range(0..6) {
+                    0 => Cons::LinNe { terms: vec![a, View { v: ivs[j], s: -1, o: 0 }], rhs: 0 },
+                    1 => Cons::Alldiff { xs: vec![a, b] },
+                    _ => Cons::BinNe { a, b },
+                };
+                g.post(c, false);
+            }
+        }
+    }
+    let nc = g.rng.gen_range(1..=4);
+    for _ in 0..nc {
+        let k = *[
+            "bin_ne", "bin_ne", "alldiff", "lin_ne", "lin_le", "lin_eq", "clause", "clause", "bin_lt",
+            "max", "abs", "element", "times",
+        ]
+        .choose(&mut g.rng)
+        .unwrap();
+        let c = g.cons_of_kind(k);
+        let c = if g.rng.gen_bool(0.15) { g.wrap(c) } else { c };
+        g.post(c, false);
+    }
+}
+
+pub const CONFIGS_PER_MODEL: u64 = 8;
+
+/// `configs`: the same model (index / 8) under 8 different configurations (index % 8): resolver,
+/// minimisation, restart policy, nogood database limits, sorting, seed, brancher (C07).
+pub fn fam_configs(seed: u64, tier: &str, index: u64) -> Scenario {
+    let model_index = index / CONFIGS_PER_MODEL;
+    let mut g = Gen::new(rng_for(seed, "configs", model_index), params(tier));
+    build_dense_model(&mut g, tier);
+    let task = g.rng.gen_range(0..3);
+    let obj = g.some_int_view();
+    let maximise = g.rng.gen_bool(0.5);
+    // the configuration is drawn from a different stream
+    let mut c = Gen::new(rng_for(seed, "configs-cfg", index), params(tier));
+    c.vars = g.vars.clone();
+    let br = c.random_brancher();
+    let mut opts = c.random_opts();
+    // keep away from the live-lock combination (known finding F17) in half of the runs only
+    if index % 2 == 0 && opts.restart_base <= 3 && opts.high_lbd_limit <= 4 {
+        opts.restart_base = 4;
+        opts.restart = "luby".into();
+    }
+    match task {
+        0 => g.steps.push(Step::Satisfy { br, stop_at: None }),
+        1 => g.steps.push(Step::Iterate { br, max: 100000, stop_at: None }),
+        _ => g.steps.push(Step::Optimise { br, maximise, lus: c.rng.gen_bool(0.5), obj, stop_at: None }),
+    }
+    Scenario { fam: "configs".into(), id: index, opts, steps: g.steps, engine: index % 4 != 3 }
+}
+
+/// Base scenario of the `interrupt` family (the driver derives the interrupted variants from it).
+pub fn fam_interrupt_base(seed: u64, tier: &str, index: u64) -> Scenario {
+    let mut g = Gen::new(rng_for(seed, "interrupt", index), params(tier));
+    if g.rng.gen_bool(0.5) {
+        build_dense_model(&mut g, tier);
+    } else {
+        let ncons = g.rng.gen_range(1..=g.p.max_cons);
+        g.build_model(ncons, false);
+    }
+    let br = g.random_brancher();
+    match g.rng.gen_range(0..4) {
+        0 => g.steps.push(Step::Satisfy { br, stop_at: None }),
+        1 => g.steps.push(Step::Iterate { br, max: 4, stop_at: None }),
+        2 => {
+            let obj = g.some_int_view();
+            g.steps.push(Step::Optimise { br, maximise: g.rng.gen_bool(0.5), lus: false, obj, stop_at: None })
+        }
+        _ => {
+            let obj = g.some_int_view();
+            g.steps.push(Step::Optimise { br, maximise: g.rng.gen_bool(0.5), lus: true, obj, stop_at: None })
+        }
+    }
+    let mut opts = g.random_opts();
+    if opts.restart_base <= 3 && opts.high_lbd_limit <= 4 {
+        opts.high_lbd_limit = 4000;
+    }
+    Scenario { fam: "interrupt".into(), id: index, opts, steps: g.steps, engine: false }
+}
+
+/// The interrupted variant: the last step fires at poll `k`, then the same operation is asked
+/// again without interruption.
+pub fn interrupt_variant(base: &Scenario, k: u64, id: u64, engine: bool) -> Scenario {
+    let mut s = base.clone();
+    s.id = id;
+    s.engine = engine;
+    let last = s.steps.pop().unwrap();
+    let with_stop = |st: &Step, stop: Option<u64>| -> Step {
+        match st.clone() {
+            Step::Satisfy { br, .. } => Step::Satisfy { br, stop_at: stop },
+            Step::Iterate { br, max, .. } => Step::Iterate { br, max, stop_at: stop },
+            Step::Optimise { br, maximise, lus, obj, .. } => {
+                Step::Optimise { br, maximise, lus, obj, stop_at: stop }
+            }
+            other => other,
+        }
+    };
+    s.steps.push(with_stop(&last, Some(k)));
+    s.steps.push(with_stop(&last, None));
+    s
 }
 
 pub fn generate(fam: &str, seed: u64, tier: &str, index: u64) -> Scenario {
@@ -883,6 +1011,8 @@ pub fn generate(fam: &str, seed: u64, tier: &str, index: u64) -> Scenario {
         "history" => fam_history(seed, tier, index),
         "cumulative" => fam_cumulative(seed, tier, index),
         "reif" => fam_reif(seed, tier, index),
+        "configs" => fam_configs(seed, tier, index),
+        "interrupt_base" => fam_interrupt_base(seed, tier, index),
         other => panic!("harness: unknown family {other}"),
     }
 }
